@@ -1187,7 +1187,7 @@ class Literal(Variable[T]):
         original_data = data
         data = [data]
         if not type_:
-            if isinstance(original_data, (list, tuple, set, frozenset, dict, range)):
+            if type(original_data) in (list, tuple, set, frozenset, dict, range):
                 first_value = next(iter(original_data), None)
             elif is_iterable(original_data):
                 # a user's iterable (a one-shot iterator, a lazily loading collection): guessing the type from its
